@@ -19,7 +19,7 @@ mod surface;
 pub fn spec() -> PropSpec {
     PropSpec {
         id: "C16",
-        rule: "cases: (a) values = mixture of the shared edge shapes (K constants, P 2^k(+-1), L patterned limbs, R runs, T random bit length, U uniform, Z zero padded) and byte-level constructions (counting bytes so every byte differs, one non-zero byte at a random position, all-0xff with one other byte, edge-alphabet byte strings) at Uint/Int 1..8,16,32 limbs and BoxedUint 1..9 limbs; every encoder/decoder form of the width (inherent, Encoding, ArrayEncoding/ArrayDecoding, slices incl. wrong sizes, NonZero/Odd decoders, words/limbs views, fmt traits, serde bincode+JSON) is checked on the same value against the positional formula; (b) hex strings built from a value in lower/upper/mixed case, then left valid (35%), or given exactly one character adjacent to a valid range ('/', ':', '@', 'G', '`', 'g') at a random position (35%), another invalid ASCII byte, a multi-byte UTF-8 character (bytes 0x80..0xf4; bytes that cannot occur in a &str are not generated), a wrong length, or several invalid characters; accepted <=> exact length and all characters in [0-9a-fA-F]; (c) boxed byte-string decoding with bits_precision in 0..=520 biased to multiples of 8 / 64 +-1 and byte strings of length 0..=precision/8+9 built as in-range / exactly 2^precision / 2^precision-1 / a bit above the precision / too long / random; (d) primitives at their boundaries (0, 1, MAX, MIN, -1, 2^k, 2^k+-1, random) into every width; (e) concat/split for every macro-generated (lo, hi) limb combination and resize between all pairs of the quantifier widths. non-trivial: (a, d, e) the byte string of the value is asymmetric (big-endian bytes != little-endian bytes); (b) a valid string of a byte-asymmetric value, or a string of the exact length with exactly one invalid character which is adjacent to a valid range; (c) bits_precision is not a multiple of 64 and the input is non-empty; the few constructor-of-nothing cases (empty limb slice / no words / numeral 0 must give a one-limb zero) all count; surface/* sub-checks run the same case functions (same rules) at the alias widths 9..=24, 28, 33, 48, 56, 64, 66, 68, 96, 127, 128, 256, 512 limbs, the equal-halves concat/split of the extra-size aliases and U16384, and serde of Wrapping<Limb> / Checked<Limb> / a 3-limb ConstMontyForm. distinct by the recorded inputs (limbs / strings / precision / primitive).",
+        rule: "cases: (a) values = mixture of the shared edge shapes (K constants, P 2^k(+-1), L patterned limbs, R runs, T random bit length, U uniform, Z zero padded) and byte-level constructions (counting bytes so every byte differs, one non-zero byte at a random position, all-0xff with one other byte, edge-alphabet byte strings) at Uint/Int 1..8,16,32 limbs and BoxedUint 1..9 limbs; every encoder/decoder form of the width (inherent, Encoding, ArrayEncoding/ArrayDecoding, slices incl. wrong sizes, NonZero/Odd decoders, words/limbs views, fmt traits, serde bincode+JSON) is checked on the same value against the positional formula; (b) hex strings built from a value in lower/upper/mixed case, then left valid (35%), or given exactly one character adjacent to a valid range ('/', ':', '@', 'G', '`', 'g') at a random position (35%), another invalid ASCII byte, a multi-byte UTF-8 character (bytes 0x80..0xf4; bytes that cannot occur in a &str are not generated), a wrong length, or several invalid characters; accepted <=> exact length and all characters in [0-9a-fA-F]; (c) boxed byte-string decoding with bits_precision in 0..=520 biased to multiples of 8 / 64 +-1 and byte strings of length 0..=precision/8+9 built as in-range / exactly 2^precision / 2^precision-1 / a bit above the precision / too long / random; (d) primitives at their boundaries (0, 1, MAX, MIN, -1, 2^k, 2^k+-1, random) into every width; (e) concat/split for every macro-generated (lo, hi) limb combination and resize between all pairs of the quantifier widths. non-trivial: (a, d, e) the byte string of the value is asymmetric (big-endian bytes != little-endian bytes); (b) a valid string of a byte-asymmetric value, or a string of the exact length with exactly one invalid character which is adjacent to a valid range; (c) bits_precision is not a multiple of 64 and the input is non-empty; the few constructor-of-nothing cases (empty limb slice / no words / numeral 0 must give a one-limb zero) all count; surface/* sub-checks run the same case functions (same rules) at the alias widths 9..=24, 28, 33, 48, 56, 64, 66, 68, 96, 127, 128, 256, 512 limbs, the equal-halves concat/split of the extra-size aliases and U16384, and serde of Wrapping<Limb> / Checked<Limb> / a 3-limb ConstMontyForm. distinct by the recorded inputs (limbs / strings / precision / primitive). Since seeding round 4: BoxedUint::from_words with inexact-size_hint iterators, From<Vec<_>> with spare capacity, in-place deserialization.",
         assumptions: vec![
             "the positional oracle works on u64 limb vectors and own hex tables; num-bigint is used only for the boxed precision classes".into(),
             "bridging uses from_words/to_words/as_words only".into(),
